@@ -211,6 +211,30 @@ def run(ck, m):
                       'after executing a command the function can return (%s) without Client::left: the session that selected a database is '
                       'dropped with its connection still counted — $connections never falls back' % [b.loc(y) for y in sorted(esc)], b.loc(x))
         ck.floor('C17.a', nd, 1, 'command dispatches in functions that also end the session')
+    # the give-back never depends on luck: no try_read / try_write / try_lock on the way from a session end to the decrement (a
+    # release that is skipped when a lock happens to be busy — a create-db holding or merely waiting for Databases.map — is never
+    # made up for: the connection stays counted)
+    TRY = ('std::sync::RwLock::try_read', 'std::sync::RwLock::try_write', 'std::sync::Mutex::try_lock')
+    tries, nscan = [], 0
+    lb_list = left
+    if lb_list:
+        stack, seen_ = [lb_list[0]], set()
+        while stack:
+            x = stack.pop()
+            if x.id in seen_:
+                continue
+            seen_.add(x.id)
+            nscan += 1
+            for bi, t in x.calls():
+                if callee_decl(t) in TRY:
+                    tries.append('%s@%s' % (short(x.id), x.loc(bi)))
+                cb_ = P.bodies.get(callee(t))
+                if cb_ is not None and not cb_.id.startswith(('nundb::client::', 'nundb::command_line::')) and len(seen_) < 60:
+                    stack.append(cb_)
+        ck.ob('C17.a', short(lb_list[0].id), 'give-back-never-skipped-on-contention', not tries,
+              'no try-lock between a session end and the decrement (%d functions scanned)' % nscan if not tries else
+              'the session end takes a lock with %s: when the lock is busy (a create-db holds or waits for Databases.map) the decrement and the '
+              '$connections update are skipped and never made up for — the connection stays counted for ever' % tries, tries[0] if tries else '')
     # ---- (b) ---------------------------------------------------------------------------
     # mirror(): reads the counter in its own critical section and writes the key in another one; the
     # update happened in a third.  Atomic only if one lock spans update, read and write.
@@ -257,6 +281,16 @@ def run(ck, m):
     effs2, raw2 = m.effects_from(mirror)
     wrote = [ev for ev, kind, info in effs2 if kind == 'map-write' and any('connections' in ex.describe(v) for v in info.get('key', ()))]
     sent = [ev for ev, kind, info in effs2 if kind == 'send' and 'watcher' in info['chan']]
+    # ... and it does so on every call: the counter is kept per node, so the key is written on whatever node serves the session; an
+    # early return on the node's role leaves the key stale (or <Empty>) on every node that is not the primary
+    store_calls = [bi for bi, t in mirror.calls() if any(ev.chain and ev.chain[0][0] == mirror.id and ev.chain[0][1] == mirror.loc(bi) for ev in wrote)
+                   or any(not ev.chain and ev.bi == bi for ev in wrote)]
+    always = bool(store_calls) and any(mirror.postdominates(x, 0) for x in store_calls)
+    ck.ob('C17.d', short(mirror.id), 'mirror-written-on-every-call', always,
+          'the connections key is written on every call of the mirror function' if always else
+          'the mirror function can return without writing the connections key (store calls %s do not post-dominate the entry — an early return '
+          'on the node\'s role, for instance): on such a node the counter changes and `$connections` keeps its old value; its watchers hear nothing'
+          % [mirror.loc(x) for x in store_calls], '%s:%s' % (mirror.file, mirror.line))
     ck.ob('C17.d', short(mirror.id), 'mirror-notifies', bool(wrote) and bool(sent),
           'the mirror write of the connections key reaches the watcher notification' if wrote and sent else
           'mirror: writes key=%s notifies=%s' % (bool(wrote), bool(sent)), '%s:%s' % (mirror.file, mirror.line))
